@@ -26,10 +26,20 @@ expectations (the statement quantifies over calls, not over first calls on fresh
                                                                                           C14.repeat.<clause>
   int_dtype          centres / corners / end points / point arrays given with an integer dtype (lattice points)
   default_argument   centre left to the documented default (origin), called twice         C14.argform.<clause>
+  unit:2^e           unit of length: EVERY length-like argument of the case (radius, major / minor radius, centre,
+                     corner and end points, point / vector arrays, the vertices of an input mesh or polyline) multiplied
+                     by the exact power of two 2^e (quick 2^-12, 2^-24, 2^12), every generator that has such an
+                     argument; the oracle divides the returned coordinates by 2^e (exact) and applies the SAME clauses
+                     against the unscaled parameters - topology, counts, orientation, switches unchanged, distances
+                     to the named surface within the same tolerance relative to the unit
+                                                                                          C14.unit.<clause>
+  C14.unit.orientation_side  the consistently oriented surface faces the same way (sign of the enclosed volume / of the
+                     flux away from the axis of an open tube) as the result of the same case in unit 1
   C14.args.unchanged after every call of every form: each argument object (points, arrays, input meshes) and each
                      array-valued default argument object of the generator is what it was before the call
 A finding of a further form is reported only when the primary form of the same case did not show the same clause
-with the same witness (so a known finding is not reported a second time under another name).
+with the same witness (so a known finding is not reported a second time under another name; in another unit of length
+the witness is expressed in that unit, and scaling by a power of two is exact, so the witnesses coincide).
 """
 from __future__ import annotations
 import itertools, math
@@ -43,8 +53,10 @@ RULE = ("one case = one (generator, parameter vector): every generator of mouett
         "parameters); non-trivial = the generator returned a mesh that was handed to the oracle; every case is run as "
         "primary (fresh float arguments, one call), repeat (same argument objects, two calls in a row, second result "
         "judged), int_dtype (integer-typed lattice points / arrays, where the generator takes points) and "
-        "default_argument (centre omitted, two calls in a row, where the centre has a default), with identical "
-        "expectations, and all argument / default-argument objects are compared before and after each call")
+        "default_argument (centre omitted, two calls in a row, where the centre has a default) and unit:2^e (every "
+        "length-like argument multiplied by an exact power of two, the returned coordinates divided by it before the "
+        "oracle sees them, where the generator has a length-like argument), with identical expectations, and all "
+        "argument / default-argument objects are compared before and after each call")
 ASSUMPTIONS = [
     "admissible = periodic resolutions >= 3 (torus segments, cylinder N, sphere_uv n_long, ring N), sphere_uv n_lat >= 2, "
     "grid / unit_triangle resolutions >= 2, sphere_fibonacci n_pts >= 4, torus minor_radius < major_radius, "
@@ -65,19 +77,36 @@ ASSUMPTIONS = [
     "centre of icosahedron); only integer-valued lattice points are given that way",
     "a VolumeMesh result (volume=True) is checked for type, cells, indices and an unoriented closed boundary; the "
     "orientation of the faces of a volume mesh is not part of the statement",
+    "unit of length: a radius / centre / point is admissible whatever the unit the caller works in; the units are exact "
+    "powers of two (2^-12 ~ 2.4e-4, 2^-24 ~ 6e-8, 2^12; thorough also 2^-40, 2^24, 2^40), so the scaled arguments and the "
+    "rescaled results are exact and every clause keeps its tolerance relative to the unit. Generators without any "
+    "length-like parameter (axis_aligned_cube, octahedron, dodecahedron, unit_grid, unit_triangle, ring, flat_ring) have "
+    "no such deviation. Measured on the unchanged tree: every generator is right in every unit from 2^-100 to 2^100, "
+    "except the triangulation of sphere_fibonacci(build_surface=True): qhull's 'QJ' joggle has an absolute floor "
+    "(30000 x machine epsilon ~ 6.7e-12), the hull is right down to radius 2^-32 (n_pts 4..80, unit 2^-31) and broken "
+    "(unused vertices, inconsistent orientation) from unit 2^-32 on; the check therefore runs that one configuration "
+    "at 2^-30 instead of 2^-40 (radius >= 4.6e-10) and claims nothing below",
+    "C14.unit.orientation_side demands only that the side a closed surface / open tube faces does not depend on the unit "
+    "of length (compared with the same case in unit 1), not that it is the outer one",
+    "cylindrify_edges in another unit of length: the scaled polyline is one more member of the primary input class "
+    "'mean edge length != 1', so a radius mismatch found there is reported in that class of the primary clause (it is the "
+    "known finding: the radius is taken relative to the mean edge length), not as a finding of the unit deviation; every "
+    "other clause of cylindrify_edges is reported under C14.unit.*",
 ]
 BOUNDS = {
     "quick": "862 cases, each run as primary + repeat (862) + int_dtype (364, generators taking points) + "
              "default_argument (75, origin-centred cases of generators with a default centre): resolutions 3..6 per axis "
              "independently (unit_grid/unit_triangle 2..6, sphere_uv n_lat 2..6), radii {1/2,1,2}, centres {0,(1,2,3)}, 4 lattice axes, torus radii {(1,1/4),(2,1/2)}, ring N 3..6 x defects "
              "{0,0.3,pi/2,pi,6,6.2} x open x covers {1,2}, icosphere 0..2, fibonacci 4..12, chains 1..6 vertices, all switch "
-             "combinations, dual_mesh of 11 closed + 7 bordered generator outputs x 2 modes",
+             "combinations, dual_mesh of 11 closed + 7 bordered generator outputs x 2 modes; unit of length: the 562 cases of "
+             "the 16 generators with a length-like parameter x {2^-12, 2^-24, 2^12} = 1686 runs",
     "thorough": "4316 cases, each run as primary + repeat (4316) + int_dtype (1244) + default_argument (351): "
                 "resolutions 3..12 per axis independently (unit_grid/unit_triangle 2..12, sphere_uv n_lat 2..12), "
                 "radii {1/2,1,2}, centres {0,(1,2,3)}, 6 lattice axes, 5 torus radius pairs, ring N 3..12 x defects "
                 "{0,0.3,pi/2,pi,5,6,6.2,2pi-0.01} x open x covers {1,2,3}, icosphere 0..4, fibonacci 4..80, chains 1..12 vertices, "
                 "tetrahedron on all 24 orderings of a lattice quadruple, all switch combinations, dual_mesh of 18 closed + "
-                "12 bordered generator outputs x 2 modes",
+                "12 bordered generator outputs x 2 modes; unit of length: the 2864 cases of the 16 generators with a "
+                "length-like parameter x {2^-12, 2^-24, 2^-40 (sphere_fibonacci surface: 2^-30), 2^12, 2^24, 2^40} = 17184 runs",
 }
 
 TOL = 1e-9
@@ -185,9 +214,14 @@ def _np():
     return np
 
 
-def verts_of(mesh):
+def raw_verts_of(mesh):
     np = _np()
     return np.array([[float(c) for c in v] for v in mesh.vertices], dtype=float).reshape(-1, 3)
+
+
+def verts_of(mesh):
+    """vertex positions in the unit of length of the running case (division by a power of two: exact)"""
+    return raw_verts_of(mesh) / _ACTIVE["unit"]
 
 
 def faces_of(mesh):
@@ -246,6 +280,27 @@ def planar_signed_areas(P, faces):
     return out
 
 
+def flux_sign(P, faces):
+    """which way a consistently oriented surface faces: sign of sum_f <centre of f - c, area vector of f>, c = mean of
+    the vertices (6 x enclosed volume for a closed surface; > 0 for an open tube whose normals point away from its
+    axis); 0 when the sum is negligible against the cube of the extent (planar pieces: no side to speak of)"""
+    np = _np()
+    if len(P) == 0 or not faces:
+        return 0
+    c = P.mean(axis=0)
+    ext = float(np.abs(P - c).max())
+    tot = 0.0
+    for f in faces:
+        Q = P[list(f)] - c
+        area2 = np.zeros(3)
+        for i in range(1, len(f) - 1):
+            area2 += np.cross(Q[i] - Q[0], Q[i + 1] - Q[0])
+        tot += float(Q.mean(axis=0) @ area2)
+    if abs(tot) <= 1e-6 * ext ** 3:
+        return 0
+    return 1 if tot > 0 else -1
+
+
 def rows_match_as_sets(A, B, tol=TOL):
     """two point lists are equal as multisets (within tol)"""
     np = _np()
@@ -278,11 +333,20 @@ def rows_match_as_sets(A, B, tol=TOL):
 #   repeat            the same argument objects handed to the generator twice in a row, the oracle judges the 2nd result
 #   int_dtype         every point / array argument given with an integer dtype (only integer-valued lattice points)
 #   default_argument  the centre left to the generator's default (the documented origin), called twice in a row
+#   unit:2^e           unit of length: EVERY length-like argument (radii, centres, corner / end points, point arrays, the
+#                     vertices of an input mesh) multiplied by the exact power of two 2^e, one call; the oracle divides
+#                     the returned coordinates by 2^e (exact) and judges them against the unscaled parameters, i.e. with
+#                     the same expectations and tolerances RELATIVE to the unit
 FORMS = {"primary": {"calls": 1, "dtype": "float"}, "repeat": {"calls": 2, "dtype": "float"},
          "int_dtype": {"calls": 1, "dtype": "int"}, "default_argument": {"calls": 2, "dtype": "float"}}
 FORM_CLAUSE = {"repeat": ("repeat", "2nd_call"), "int_dtype": ("argform", "int_dtype"),
                "default_argument": ("argform", "default_argument")}
-_ACTIVE = {"form": "primary", "rep": None, "log": None}
+UNIT_EXPONENTS = {"quick": [-12, -24, 12], "thorough": [-12, -24, -40, 12, 24, 40]}
+FIBONACCI_SURFACE_MIN_EXPONENT = -30      # see ASSUMPTIONS (qhull's joggle has an absolute floor)
+for _e in sorted({e for v in UNIT_EXPONENTS.values() for e in v} | {FIBONACCI_SURFACE_MIN_EXPONENT}):
+    FORMS["unit:2^%d" % _e] = {"calls": 1, "dtype": "float", "unit": _e}
+    FORM_CLAUSE["unit:2^%d" % _e] = ("unit", "unit<1" if _e < 0 else "unit>1")
+_ACTIVE = {"form": "primary", "rep": None, "log": None, "unit": 1.0, "tier": "quick", "facts": None}
 
 
 class Cx:
@@ -292,14 +356,20 @@ class Cx:
         self.form = _ACTIVE["form"]
         self.calls = FORMS[self.form]["calls"]
         self.dtype = FORMS[self.form]["dtype"]
+        self.unit = 2.0 ** FORMS[self.form].get("unit", 0)      # exact power of two
 
-    def bad(self, sub, kind, icls, callee=None, **detail):
+    def bad(self, sub, kind, icls, callee=None, member_of_primary_class=False, **detail):
+        """member_of_primary_class: the finding of a further form is reported under the plain clause and class because
+        the deviated input is itself a member of that (computed) class of the primary enumeration"""
         d = {"generator": self.gen, "params": self.params}
         if self.form != "primary":
             d["form"] = self.form
+        if self.unit != 1.0:
+            d["unit_note"] = ("every length-like argument was multiplied by %s; positions and lengths below are the "
+                              "returned ones divided by it" % self.form[5:])
         d.update(detail)
         if _ACTIVE["log"] is not None and self.rep is _ACTIVE["rep"]:
-            _ACTIVE["log"].append(("C14." + sub, callee or self.callee, kind, icls, d))
+            _ACTIVE["log"].append(("C14." + sub, callee or self.callee, kind, icls, d, bool(member_of_primary_class)))
         self.rep.violation("C14." + sub, callee or self.callee, kind, icls, d)
 
     # ---------------------------------------------------------------------------------- argument forms
@@ -310,16 +380,20 @@ class Cx:
             v = M.Vec(*[int(c) for c in q])
             assert v.dtype.kind == "i"
             return v
-        return M.Vec(*[float(c) for c in q])
+        return M.Vec(*[float(c) * self.unit for c in q])
+
+    def ln(self, x):
+        """a length argument (radius) in the unit of length of the case"""
+        return float(x) * self.unit
 
     def arr(self, a):
-        """a fresh array argument in the argument form of the case"""
+        """a fresh array argument (of positions / vectors) in the argument form of the case"""
         np = _np()
         a = np.array(a, float)
         if self.dtype == "int":
             assert bool((a == np.round(a)).all())
             return a.astype(np.int64)
-        return a.copy()
+        return a * self.unit
 
     def ev(self, n=1):
         self.rep.evaluations += n
@@ -378,6 +452,8 @@ class Cx:
         if good:
             self.rep.flag("shape_ok:" + shape)
             self.rep.count("structurally_valid:" + self.gen)
+            if oriented and _ACTIVE.get("facts") is not None and self.rep is _ACTIVE["rep"]:
+                _ACTIVE["facts"]["orientation_sign"] = flux_sign(verts_of(mesh), faces)
         return res
 
     def counts(self, mesh, icls, nv=None, nf=None, faces=None):
@@ -500,6 +576,12 @@ def run_generator(cx: Cx, fn, icls, *a, **k):
     cx.rep.states += 1
     cx.rep.case((cx.gen, cx.form, repr(sorted(cx.params.items()))))
     cx.rep.flag("form:" + cx.form)
+    if cx.unit != 1.0 and hasattr(result, "vertices") and len(result.vertices):
+        # vacuity guard of the unit deviation: the returned coordinates really live at the deviated scale (every box
+        # has extents within [0.05, 16] units: below 16*2^-12 < 0.01 resp. above 0.05*2^12 > 100)
+        ext = float(np.abs(raw_verts_of(result)).max())
+        if (cx.unit < 1.0 and ext < 0.01) or (cx.unit > 1.0 and ext > 100.0):
+            cx.rep.count("unit_result_at_scale:" + cx.gen)
     return result
 
 
@@ -746,7 +828,7 @@ def check_icosahedron(M, p, rep):
     if cx.form == "default_argument":      # the documented default centre is the origin
         m = run_generator(cx, M.procedural.icosahedron, icls, radius=p["radius"], uv=p["uv"])
     else:
-        m = run_generator(cx, M.procedural.icosahedron, icls, cx.pt(M, p["center"]), p["radius"], p["uv"])
+        m = run_generator(cx, M.procedural.icosahedron, icls, cx.pt(M, p["center"]), cx.ln(p["radius"]), p["uv"])
     if m is None or not cx.expect_type(m, "SurfaceMesh", icls):
         return
     P = _regular_solid(cx, m, icls, p["center"], 12, 20, 3)
@@ -781,14 +863,14 @@ def _cylinder_geometry(cx, P, idx, P1, P2, radius, N, icls, caps):
     rho = np.linalg.norm(radial, axis=1)
     scale = max(1.0, radius, L)
     cx.ev(3)
-    ring = rho > 1e-6 * scale
+    # with caps the two vertices on the axis are the cap centres; without caps every vertex is a vertex of the wall
+    # (one that sits on the axis is then simply not at the radius)
+    ring = (rho > 1e-6 * scale) if caps else np.ones(len(idx), bool)
     centres = [i for i in range(len(idx)) if not ring[i]]
     if caps:
         cs = sorted(round(float(t[i]) / L, 9) for i in centres)
         if cs != [0.0, 1.0]:
             cx.bad("geometry.requested_corners", "mismatch:cap_centres", icls, axial_positions_of_axis_vertices=cs)
-    elif centres:
-        cx.bad("geometry.on_surface", "mismatch:vertex_on_axis", icls, n=len(centres))
     if ring.any():
         bad_r = float(np.abs(rho[ring] - radius).max())
         if bad_r > TOL * scale:
@@ -824,7 +906,7 @@ def check_cylinder(M, p, rep):
     cx = Cx(rep, "cylinder", p)
     icls = "cylinder:" + ("caps" if p["fill_caps"] else "open")
     N = p["N"]
-    m = run_generator(cx, M.procedural.cylinder, icls, cx.pt(M, p["P1"]), cx.pt(M, p["P2"]), p["radius"], N, p["fill_caps"])
+    m = run_generator(cx, M.procedural.cylinder, icls, cx.pt(M, p["P1"]), cx.pt(M, p["P2"]), cx.ln(p["radius"]), N, p["fill_caps"])
     if m is None or not cx.expect_type(m, "SurfaceMesh", icls):
         return
     rep.flag(f"fill_caps={p['fill_caps']}")
@@ -850,7 +932,7 @@ def check_torus(M, p, rep):
     cx = Cx(rep, "torus", p)
     a, b, R, r = p["major"], p["minor"], p["R"], p["r"]
     icls = f"torus:major{eqne(a, b)}minor"
-    m = run_generator(cx, M.procedural.torus, icls, a, b, R, r, p["triangulate"])
+    m = run_generator(cx, M.procedural.torus, icls, a, b, cx.ln(R), cx.ln(r), p["triangulate"])
     if m is None or not cx.expect_type(m, "SurfaceMesh", icls):
         return
     rep.flag("unequal_resolutions" if a != b else "equal_resolutions")
@@ -893,7 +975,7 @@ def check_sphere_uv(M, p, rep):
     if cx.form == "default_argument":
         m = run_generator(cx, M.procedural.sphere_uv, icls, a, b, radius=p["radius"])
     else:
-        m = run_generator(cx, M.procedural.sphere_uv, icls, a, b, cx.pt(M, p["center"]), p["radius"])
+        m = run_generator(cx, M.procedural.sphere_uv, icls, a, b, cx.pt(M, p["center"]), cx.ln(p["radius"]))
     if m is None or not cx.expect_type(m, "SurfaceMesh", icls):
         return
     rep.flag("unequal_resolutions" if a != b else "equal_resolutions")
@@ -922,7 +1004,7 @@ def check_icosphere(M, p, rep):
     if cx.form == "default_argument":
         m = run_generator(cx, M.procedural.icosphere, icls, k, radius=p["radius"])
     else:
-        m = run_generator(cx, M.procedural.icosphere, icls, k, cx.pt(M, p["center"]), p["radius"])
+        m = run_generator(cx, M.procedural.icosphere, icls, k, cx.pt(M, p["center"]), cx.ln(p["radius"]))
     if m is None or not cx.expect_type(m, "SurfaceMesh", icls):
         return
     res = cx.structural(m, icls, "sphere")
@@ -940,7 +1022,7 @@ def check_sphere_fibonacci(M, p, rep):
     np = _np()
     cx = Cx(rep, "sphere_fibonacci", p)
     icls = f"sphere_fibonacci:build_surface={p['build_surface']}"
-    m = run_generator(cx, M.procedural.sphere_fibonacci, icls, p["n_pts"], p["radius"], p["build_surface"])
+    m = run_generator(cx, M.procedural.sphere_fibonacci, icls, p["n_pts"], cx.ln(p["radius"]), p["build_surface"])
     if m is None:
         return
     rep.flag(f"build_surface={p['build_surface']}")
@@ -1252,6 +1334,11 @@ def check_dual_mesh(M, p, rep):
     np = _np()
     cx = Cx(rep, "dual_mesh", p)
     src = _sources(M)[p["src"]]()
+    if cx.unit != 1.0:      # the same surface in another unit of length (a fresh mesh, nothing cached)
+        raw = M.mesh.RawMeshData()
+        raw.vertices += [M.Vec(*[float(c) * cx.unit for c in v]) for v in src.vertices]
+        raw.faces += [[int(v) for v in f] for f in src.faces]
+        src = M.mesh.SurfaceMesh(raw)
     Fp = faces_of(src)
     Pp = verts_of(src)
     if p["mode"] == "circumcenter" and any(len(f) != 3 for f in Fp):
@@ -1391,8 +1478,8 @@ def check_spherify_vertices(M, p, rep):
     k = p["n_subdiv"]
     icls = "spherify_vertices:n_subdiv=0" if k == 0 else "spherify_vertices:n_subdiv>0"
     pts = np.array(p["pts"], float)
-    arg = M.mesh.from_arrays(pts.copy()) if p["as"] == "PointCloud" else cx.arr(pts)
-    m = run_generator(cx, M.procedural.spherify_vertices, icls, arg, p["radius"], k)
+    arg = M.mesh.from_arrays(pts * cx.unit) if p["as"] == "PointCloud" else cx.arr(pts)
+    m = run_generator(cx, M.procedural.spherify_vertices, icls, arg, cx.ln(p["radius"]), k)
     if m is None or not cx.expect_type(m, "SurfaceMesh", icls):
         return
     npts = len(pts)
@@ -1430,12 +1517,12 @@ def check_cylindrify_edges(M, p, rep):
     pts, edges = POLYLINES[p["poly"]]
     pts = np.array(pts, float)
     lens = [float(np.linalg.norm(pts[a] - pts[b])) for a, b in edges]
-    mean_len = sum(lens) / len(lens)
+    mean_len = sum(lens) / len(lens) * cx.unit          # of the polyline that is handed over
     icls = "cylindrify_edges:mean_edge_length" + ("==1" if abs(mean_len - 1) < 1e-12 else "!=1")
-    pl = M.mesh.from_arrays(pts.copy(), E=np.array(edges))
+    pl = M.mesh.from_arrays(pts * cx.unit, E=np.array(edges))
     assert type(pl).__name__ == "PolyLine" and sorted(tuple(sorted(map(int, e))) for e in pl.edges) == sorted(map(tuple, edges))
     N = p["N"]
-    m = run_generator(cx, M.procedural.cylindrify_edges, icls, pl, p["radius"], N)
+    m = run_generator(cx, M.procedural.cylindrify_edges, icls, pl, cx.ln(p["radius"]), N)
     if m is None or not cx.expect_type(m, "SurfaceMesh", icls):
         return
     rep.flag("cylindrify:" + icls.split(":")[1])
@@ -1466,7 +1553,10 @@ def check_cylindrify_edges(M, p, rep):
             v = sub.rep.violations[0]
             d = dict(v["detail"]); d.pop("generator", None); d.pop("params", None)
             d.update(edge=[int(a), int(b)], mean_edge_length=mean_len)
-            cx.bad(v["subcheck"][4:], v["kind"], icls, **d)
+            # in another unit of length the polyline is one more member of the class "mean edge length != 1" of the
+            # primary enumeration: its radius clause is reported there (see ASSUMPTIONS)
+            cx.bad(v["subcheck"][4:], v["kind"], icls,
+                   member_of_primary_class=(cx.unit != 1.0 and v["kind"] == "mismatch:radius" and icls.endswith("!=1")), **d)
             return
 
 
@@ -1482,7 +1572,7 @@ GENERATORS = {
     "cylinder": (enum_cylinder, check_cylinder, 24),
     "torus": (enum_torus, check_torus, 12),
     "sphere_uv": (enum_sphere_uv, check_sphere_uv, 18),
-    "icosphere": (enum_icosphere, check_icosphere, 2),
+    "icosphere": (enum_icosphere, check_icosphere, 1),
     "sphere_fibonacci": (enum_sphere_fibonacci, check_sphere_fibonacci, 18),
     "triangle": (enum_triangle, check_triangle, 8),
     "quad": (enum_quad, check_quad, 8),
@@ -1521,6 +1611,23 @@ INT_POINT_KEYS = {"tetrahedron": ["pts"], "hexahedron": ["pts"], "hexahedron_4pt
 ORIGIN_DEFAULT = ("icosahedron", "sphere_uv", "icosphere")     # generators whose centre defaults to the origin
 
 
+# generators with at least one length-like parameter (radius, centre, corner / end points, point arrays, input mesh);
+# the others (axis_aligned_cube, octahedron, dodecahedron, unit_grid, unit_triangle, ring, flat_ring) have none
+UNIT_GENERATORS = ("tetrahedron", "hexahedron", "hexahedron_4pts", "icosahedron", "cylinder", "torus", "sphere_uv",
+                   "icosphere", "sphere_fibonacci", "triangle", "quad", "dual_mesh", "chain_of_vertices", "vector_field",
+                   "spherify_vertices", "cylindrify_edges")
+
+
+def unit_exponents(gen, p, tier):
+    """the units of length 2^e in which the case is run besides the unit one.  Every generator is run in every unit of
+    the tier except the qhull triangulation of sphere_fibonacci, which stops at 2^-30 (bound measured on the unchanged
+    tree, see ASSUMPTIONS)"""
+    es = UNIT_EXPONENTS[tier]
+    if gen == "sphere_fibonacci" and p["build_surface"]:
+        es = sorted({max(e, FIBONACCI_SURFACE_MIN_EXPONENT) for e in es})
+    return list(es)
+
+
 def _integral(x):
     if isinstance(x, (list, tuple)):
         return all(_integral(y) for y in x)
@@ -1536,6 +1643,8 @@ def forms_of(gen, p):
         out.append("int_dtype")
     if gen in ORIGIN_DEFAULT and all(c == 0 for c in p["center"]):
         out.append("default_argument")
+    if gen in UNIT_GENERATORS:
+        out += ["unit:2^%d" % e for e in unit_exponents(gen, p, _ACTIVE["tier"])]
     return out
 
 
@@ -1544,7 +1653,7 @@ def _canon_detail(d):
         if isinstance(x, float):
             return float("%.9g" % x) if x == x and abs(x) != float("inf") else repr(x)
         if isinstance(x, dict):
-            return {str(k): r(v) for k, v in x.items() if k not in ("params", "form", "generator")}
+            return {str(k): r(v) for k, v in x.items() if k not in ("params", "form", "generator", "unit_note")}
         if isinstance(x, (list, tuple)):
             return [r(v) for v in x]
         return x
@@ -1555,11 +1664,13 @@ def _canon_detail(d):
 
 def _run_form(form, chk, M, p, rep, log):
     old = dict(_ACTIVE)
-    _ACTIVE.update(form=form, rep=rep, log=log)
+    facts = {}
+    _ACTIVE.update(form=form, rep=rep, log=log, unit=2.0 ** FORMS[form].get("unit", 0), facts=facts)
     try:
         chk(M, p, rep)
     finally:
         _ACTIVE.update(old)
+    return facts
 
 
 def run_case(M, gen, chk, p, rep):
@@ -1567,12 +1678,24 @@ def run_case(M, gen, chk, p, rep):
     oracle finds there and did not find (same clause, same witness) on the primary form is reported under the clause
     of the form (C14.repeat.* / C14.argform.*)"""
     prim = []
-    _run_form("primary", chk, M, p, rep, prim)
-    explained = {(s, c, k, i, _canon_detail(d)) for (s, c, k, i, d) in prim}
+    prim_facts = _run_form("primary", chk, M, p, rep, prim)
+    explained = {(s, c, k, i, _canon_detail(d)) for (s, c, k, i, d, _m) in prim}
     for form in forms_of(gen, p):
         scratch, log = Report(), []
-        _run_form(form, chk, M, p, scratch, log)
-        rep.count("runs:" + form)
+        facts = _run_form(form, chk, M, p, scratch, log)
+        if form.startswith("unit:") and prim_facts.get("orientation_sign") and facts.get("orientation_sign"):
+            # C14.unit.orientation_side: the surface faces the same way in every unit of length (both results are
+            # consistently oriented surfaces of the promised shape with a side to speak of)
+            rep.evaluations += 1
+            rep.count("unit_orientation_side_compared")
+            rep.outcome("orientation_side", prim_facts["orientation_sign"])
+            if facts["orientation_sign"] != prim_facts["orientation_sign"]:
+                rep.violation("C14.unit.orientation_side", "procedural." + gen, "mismatch:surface_turned_inside_out",
+                              gen + ":" + FORM_CLAUSE[form][1],
+                              {"generator": gen, "params": p, "form": form, "side_in_unit_1": prim_facts["orientation_sign"],
+                               "side_in_this_unit": facts["orientation_sign"],
+                               "side": "sign of sum_f <centre of f - mean vertex, area vector of f>"})
+        rep.count("runs:" + form.split(":")[0])
         rep.states += scratch.states; rep.transitions += scratch.transitions
         rep.traces += scratch.traces; rep.evaluations += scratch.evaluations
         rep.distinct |= scratch.distinct
@@ -1583,14 +1706,14 @@ def run_case(M, gen, chk, p, rep):
             if f.startswith("form:"):
                 rep.flag(f)
         for name, n in scratch.counters.items():
-            if name.startswith("args_compared:"):
+            if name.startswith("args_compared:") or name.startswith("unit_result_at_scale:"):
                 rep.count(name, n)
         clause, tag = FORM_CLAUSE[form]
-        for (s, c, k, i, d) in log:
+        for (s, c, k, i, d, member) in log:
             if (s, c, k, i, _canon_detail(d)) in explained:
-                rep.count("finding_of_primary_form_seen_again:" + form)
+                rep.count("finding_of_primary_form_seen_again:" + form.split(":")[0])
                 continue
-            if s == "C14.args.unchanged":      # its class already names the kind of object that was modified
+            if s == "C14.args.unchanged" or member:      # the class already says which inputs are concerned
                 rep.violation(s, c, k, i, d)
             else:
                 rep.violation("C14." + clause + "." + s[4:], c, k, i + ":" + tag, d)
@@ -1605,7 +1728,7 @@ def _selftest(M, rep):
     for how in ("argument", "default_argument"):
         s, log = Report(), []
         old = dict(_ACTIVE)
-        _ACTIVE.update(form="primary", rep=s, log=log)
+        _ACTIVE.update(form="primary", rep=s, log=log, unit=1.0)
         try:
             cx = Cx(s, "selftest", {})
             if how == "argument":
@@ -1619,10 +1742,28 @@ def _selftest(M, rep):
     if [float(c) for c in fake.__defaults__[0]] == [0.0, 0.0, 0.0]:
         rep.flag("selftest:default_argument_put_back")
 
+    # the unit deviation notices a generator with an absolute threshold on a length (and only away from the unit)
+    def snapping_triangle(P0, P1, P2):
+        snap = lambda P: M.Vec(*[0.0 if abs(float(c)) < 1e-6 else float(c) for c in P])
+        return M.procedural.triangle(snap(P0), snap(P1), snap(P2))
+
+    def chk(M_, p, r):
+        cx = Cx(r, "triangle", p)
+        m = run_generator(cx, snapping_triangle, "selftest", *[cx.pt(M_, q) for q in p["pts"]])
+        cx.same_points(verts_of(m), p["pts"], "selftest", ordered=False)
+
+    seen = {}
+    for form in ("primary", "unit:2^-12", "unit:2^-24", "unit:2^12"):
+        s, log = Report(), []
+        _run_form(form, chk, M, {"pts": TRIS[1]}, s, log)
+        seen[form] = [e[0] for e in log]
+    if seen == {"primary": [], "unit:2^-12": [], "unit:2^-24": ["C14.geometry.requested_corners"], "unit:2^12": []}:
+        rep.flag("selftest:unit_deviation")
+
 
 # number of runs in the further forms (pinned like the boxes)
-PINNED_RUNS = {"quick": {"repeat": 862, "int_dtype": 364, "default_argument": 75},
-               "thorough": {"repeat": 4316, "int_dtype": 1244, "default_argument": 351}}
+PINNED_RUNS = {"quick": {"repeat": 862, "int_dtype": 364, "default_argument": 75, "unit": 1686},
+               "thorough": {"repeat": 4316, "int_dtype": 1244, "default_argument": 351, "unit": 17184}}
 
 
 def tasks(tier):
@@ -1630,7 +1771,7 @@ def tasks(tier):
     for name, (enum, _chk, batch) in GENERATORS.items():
         cases = enum(tier)
         for i in range(0, len(cases), batch):
-            out.append({"gen": name, "first_batch": i == 0, "cases": cases[i:i + batch]})
+            out.append({"gen": name, "tier": tier, "first_batch": i == 0, "cases": cases[i:i + batch]})
     return out
 
 
@@ -1639,13 +1780,18 @@ def run_task(task, rep: Report):
     warnings.filterwarnings("ignore")
     import mouette as M
     chk = GENERATORS[task["gen"]][1]
-    if task.get("first_batch"):
-        _selftest(M, rep)
-    for p in task["cases"]:
-        rep.count("cases:" + task["gen"])
-        run_case(M, task["gen"], chk, p, rep)
-        if task.get("first_batch") and p is task["cases"][-1] and task["gen"] in ("cylinder", "torus", "unit_grid", "ring"):
-            rep.sample({"generator": task["gen"], "params": p})
+    old = dict(_ACTIVE)
+    _ACTIVE.update(tier=task["tier"])
+    try:
+        if task.get("first_batch"):
+            _selftest(M, rep)
+        for p in task["cases"]:
+            rep.count("cases:" + task["gen"])
+            run_case(M, task["gen"], chk, p, rep)
+            if task.get("first_batch") and p is task["cases"][-1] and task["gen"] in ("cylinder", "torus", "unit_grid", "ring"):
+                rep.sample({"generator": task["gen"], "params": p})
+    finally:
+        _ACTIVE.update(old)
 
 
 def finish(tier, rep: Report):
@@ -1664,13 +1810,23 @@ def finish(tier, rep: Report):
               "cylindrify:mean_edge_length!=1"):
         if f not in rep.flags:
             fails.append("coverage flag missing: " + f)
-    for f in ("form:primary", "form:repeat", "form:int_dtype", "form:default_argument", "selftest:args_unchanged:argument",
-              "selftest:args_unchanged:default_argument", "selftest:default_argument_put_back"):
+    for f in (["form:primary", "form:repeat", "form:int_dtype", "form:default_argument", "selftest:args_unchanged:argument",
+               "selftest:args_unchanged:default_argument", "selftest:default_argument_put_back", "selftest:unit_deviation"]
+              + ["form:unit:2^%d" % e for e in UNIT_EXPONENTS[tier]]
+              + (["form:unit:2^%d" % FIBONACCI_SURFACE_MIN_EXPONENT] if min(UNIT_EXPONENTS[tier]) < FIBONACCI_SURFACE_MIN_EXPONENT else [])):
         if f not in rep.flags:
             fails.append("coverage flag missing: " + f)
     for form, n in PINNED_RUNS[tier].items():
         if rep.counters.get("runs:" + form, 0) != n:
             fails.append(f"form {form}: {rep.counters.get('runs:' + form, 0)} runs, {n} pinned")
+    for name in UNIT_GENERATORS:
+        # every result of every unit run lies at the deviated scale (PointCloud / empty results apart: none in the boxes)
+        want = sum(len(unit_exponents(name, pp, tier)) for pp in GENERATORS[name][0](tier))
+        got = rep.counters.get("unit_result_at_scale:" + name, 0)
+        if got == 0 or got > want:
+            fails.append(f"unit deviation of {name}: {got} results at the deviated scale, {want} runs")
+    if rep.counters.get("unit_orientation_side_compared", 0) < 100:
+        fails.append("unit deviation: the side a surface faces was compared on fewer than 100 runs")
     for kind in ("array:float", "array:int", "mesh", "default_argument"):
         if rep.counters.get("args_compared:" + kind, 0) == 0:
             fails.append(f"no argument object of kind {kind} was compared before / after a call")
